@@ -270,6 +270,15 @@ class C09(Machine):
                     if prior and not piece:
                         probe("empty_final_piece_after_data")
                 bad = False
+                # an empty final piece under zero padding / no padding: the extra all-zero / empty
+                # block is accepted, and so is emitting nothing (both are 'minimal' readings)
+                optional = final and scheme in ("Nullpadding", "nopadding") and not piece and len(blocks) == 1
+                if optional and pulls:
+                    o0 = pulls[0]["out"]
+                    if o0[0] == "ok" and o0[1] and o0[1][0] == {"stop": 1}:
+                        probe("optional_padonly_block_not_emitted")
+                        finished = True
+                        continue
                 for i, e in enumerate(pulls):
                     out = e["out"]
                     if i < len(blocks):
